@@ -48,7 +48,7 @@ def rand_doc(rnd):
     doc = {"productName": "app", "version": "1.0.0", "identifier": "com.example.app", "build": {"frontendDist": "../dist", "devUrl": "http://localhost:1420"}}
     for _ in range(rnd.randint(0, 6)):
         doc["x" + str(rnd.randint(0, 99))] = rand_json(rnd, rnd.randint(1, 6))
-    mode = rnd.choice(["absent", "empty", "others", "with-typegen", "others+typegen", "null", "typegen-garbage"])
+    mode = rnd.choice(["absent", "empty", "others", "with-typegen", "others+typegen", "null", "typegen-garbage", "plugins-not-an-object"])
     if mode == "empty":
         doc["plugins"] = {}
     elif mode == "others":
@@ -63,7 +63,11 @@ def rand_doc(rnd):
     elif mode == "typegen-garbage":
         doc["plugins"] = {"typegen": rnd.choice([5, "str", [1], None]), "keep": {"me": 1.5}}
     elif mode == "null":
-        pass
+        doc["plugins"] = None
+    elif mode == "plugins-not-an-object":
+        # not a section the settings can be written into: the write either says so and leaves the document alone, or it succeeds and
+        # the settings can be read back — never a reported success that wrote nothing
+        doc["plugins"] = rnd.choice([[], [{"typegen": 1}], "none", 0, False])
     if rnd.random() < 0.3:
         doc["app"] = {"windows": [{"title": "t", "width": 800, "height": 600.5}], "security": {"csp": None}}
     return doc, mode
@@ -160,11 +164,19 @@ def run_doc_case(a):
         except (OSError, ValueError) as e:
             viol.append(("C19 document-unreadable-after-write via=%s plugins=%s" % (via, pmode), "after writing, the document is not JSON any more: %s" % e))
             return {"viol": viol, "wit": {"doc": text, "via": via}}
+        refused = r.rc != 0 and not r.panicked
+        if refused and pmode in ("plugins-not-an-object", "null"):
+            # a legitimate refusal: nothing may have changed
+            if after_text != text:
+                viol.append(("C19 refused-write-changes-document via=%s plugins=%s" % (via, pmode), "the write was refused (exit %s) but the document changed" % r.rc))
+            return {"viol": viol, "wit": {"doc": text, "via": via, "settings": settings}, "pmode": pmode}
         if via == "save" and r.rc != 0:
             viol.append(("C19 save-fails via=save plugins=%s" % pmode, "save_to_tauri_config failed: %s" % r.out[-200:]))
         sb, sa = strip_typegen(before), strip_typegen(after)
-        if isinstance(sb, dict) and isinstance(sa, dict) and "plugins" not in sb and sa.get("plugins") == {}:
-            sa = {k2: v2 for k2, v2 in sa.items() if k2 != "plugins"}     # the section had to be created to hold typegen
+        if isinstance(sb, dict) and isinstance(sa, dict) and ("plugins" not in sb or sb["plugins"] is None) and sa.get("plugins") == {}:
+            # the section had to be created to hold typegen (an absent one, or one that said null)
+            sa = {k2: v2 for k2, v2 in sa.items() if k2 != "plugins"}
+            sb = {k2: v2 for k2, v2 in sb.items() if k2 != "plugins"}
         d = diff_json(sb, sa)
         if d:
             cls = "integer" if "integer" in d else "number" if "number" in d else "key-lost" if "lost" in d else "key-appeared" if "appeared" in d else "value"
@@ -184,8 +196,8 @@ def run_doc_case(a):
                         w = w or None
                     if g != w:
                         viol.append(("C19 round-trip setting=%s via=%s" % (k, via), "wrote %r, read back %r" % (want, got.get(k))))
-            elif via == "save" and r.rc == 0:
-                viol.append(("C19 round-trip-read-fails via=%s" % via, "from_tauri_config on the written document: %s" % rl.out[:200]))
+            elif r.rc == 0:
+                viol.append(("C19 round-trip-read-fails via=%s plugins=%s" % (via, pmode), "the write reported success, from_tauri_config on the written document: %s" % rl.out[:200]))
         return {"viol": viol, "wit": {"doc": text, "via": via, "settings": settings}, "pmode": pmode}
     finally:
         common.rmtree(root)
@@ -430,6 +442,81 @@ def run_init_case(a):
         common.rmtree(root)
 
 
+BUILD_KINDS = ["defaults-only", "tauri-section", "standalone-typegen.json", "tauri-without-section+standalone", "tauri-section-beats-defaults-in-every-setting",
+               "bad-validation-in-tauri-section", "bad-validation-in-standalone", "missing-project-in-tauri-section", "missing-project-in-standalone",
+               "bad-validation-case-variant-in-tauri-section"]
+
+
+def run_build_case(a):
+    """the build-script entry path (BuildSystem::generate_at_build_time, run in the project root) has no flags: file over default, a
+    tauri.conf.json section or a stand-alone typegen.json; invalid settings are rejected before anything is written there as well"""
+    drv, kind = a
+    root = common.scratch("c19b")
+    try:
+        app = os.path.join(root, "app")
+        make_project(os.path.join(app, "src-tauri"), "from_default_project")
+        make_project(os.path.join(app, "backend"), "from_configured_project")
+        want = {"project": "from_default_project", "out": "src/generated", "zod": False}
+        tauri = {"productName": "app", "plugins": {"other": {"keep": True}}}
+        standalone = None
+        if kind in ("tauri-section", "tauri-section-beats-defaults-in-every-setting"):
+            tauri["plugins"]["typegen"] = {"projectPath": "./backend", "outputPath": "./bindings", "validationLibrary": "zod"}
+            want = {"project": "from_configured_project", "out": "bindings", "zod": True}
+        elif kind == "standalone-typegen.json":
+            tauri = None
+            standalone = {"project_path": "./backend", "output_path": "./bindings", "validation_library": "zod"}
+            want = {"project": "from_configured_project", "out": "bindings", "zod": True}
+        elif kind == "tauri-without-section+standalone":
+            standalone = {"project_path": "./backend", "output_path": "./bindings", "validation_library": "zod"}
+            want = {"project": "from_configured_project", "out": "bindings", "zod": True}
+        elif kind.startswith("bad-validation") and kind.endswith("tauri-section"):
+            tauri["plugins"]["typegen"] = {"projectPath": "./backend", "outputPath": "./bindings", "validationLibrary": "ZOD" if "case-variant" in kind else "yup"}
+            want = None
+        elif kind == "bad-validation-in-standalone":
+            standalone = {"project_path": "./backend", "output_path": "./bindings", "validation_library": "joi"}
+            want = None
+        elif kind == "missing-project-in-tauri-section":
+            tauri["plugins"]["typegen"] = {"projectPath": "./does-not-exist", "outputPath": "./bindings", "validationLibrary": "zod"}
+            want = None
+        elif kind == "missing-project-in-standalone":
+            standalone = {"project_path": "./does-not-exist", "output_path": "./bindings", "validation_library": "none"}
+            want = None
+        if tauri is not None:
+            json.dump(tauri, open(os.path.join(app, "tauri.conf.json"), "w"))
+        if standalone is not None:
+            json.dump(standalone, open(os.path.join(app, "typegen.json"), "w"))
+        before = fsmon.snapshot(root)
+        r = common.run([drv, "build"], cwd=app, timeout=120)
+        after = fsmon.snapshot(root)
+        d = fsmon.diff(before, after)
+        viol = []
+        label = "build-script run, %s" % kind
+        failed = r.rc != 0 or "RESULT err" in r.out
+        if want is None:
+            if not failed:
+                viol.append(("C19 invalid-setting-not-rejected kind=%s entry=build-script" % kind, "%s: the run reports success (%r)" % (label, (r.out + r.err).strip()[-120:])))
+            changed = d["created"] + d["deleted"] + d["modified"]
+            if changed:
+                viol.append(("C19 invalid-setting-writes-files kind=%s entry=build-script" % kind, "%s: the run created/changed %s" % (label, changed[:5])))
+            return {"viol": viol, "label": label}
+        if failed:
+            viol.append(("C19 build-script-run-fails kind=%s" % kind, "%s: %s" % (label, (r.out + r.err).strip()[-200:])))
+            return {"viol": viol, "label": label}
+        where = sorted(os.path.relpath(dp, app) for dp, _, fs in os.walk(app) for f in fs if f == "commands.ts")
+        if where != [want["out"]]:
+            viol.append(("C19 precedence setting=output expected=%s entry=build-script kind=%s" % ("file" if want["out"] == "bindings" else "default", kind), "%s: commands.ts written to %s, expected %s" % (label, where, want["out"])))
+        else:
+            ct = open(os.path.join(app, want["out"], "commands.ts")).read()
+            if want["project"] not in ct:
+                viol.append(("C19 precedence setting=project expected=%s entry=build-script kind=%s" % ("file" if want["zod"] else "default", kind), "%s: the bindings do not come from the %s project" % (label, want["project"])))
+            is_zod = "from 'zod'" in open(os.path.join(app, want["out"], "types.ts")).read()
+            if is_zod != want["zod"]:
+                viol.append(("C19 precedence setting=validation expected=%s entry=build-script kind=%s" % ("file" if want["zod"] else "default", kind), "%s: bindings are %s" % (label, "Zod schemas" if is_zod else "plain TypeScript")))
+        return {"viol": viol, "label": label}
+    finally:
+        common.rmtree(root)
+
+
 def run(tier):
     v = Verdict("C19", "exploration", tier)
     cli = common.build_cli()
@@ -485,6 +572,12 @@ def run(tier):
         v.count("init_precedence_cases")
         for (sig, what) in r["viol"]:
             v.violation(sig, what, {"layout": job[1], "flag": job[2]})
+    bjobs = [(drv, kind) for kind in BUILD_KINDS]
+    for (job, r) in zip(bjobs, common.pmap(run_build_case, bjobs)):
+        v.case(("build-script", job[1]), nontrivial=True)
+        v.count("build_script_configuration_cases")
+        for (sig, what) in r["viol"]:
+            v.violation(sig, what, {"entry": "build-script", "kind": job[1]})
     v.extra["precedence_matrix_cells"] = len(cells)
     rule = ("cases are (i) generated JSON documents (nesting <= 6, Unicode/escaped strings, integers over the i64/u64 range, decimals/exponents, 7 shapes "
             "of the plugins section) written through `init` or save_to_tauri_config and re-read exactly; (ii) every cell of the 2^5 flag-subset x "
